@@ -6,11 +6,13 @@ from core import World, parse_fs, Line, hx
 from gen import Gen, mode_line, cfg_line
 from suites import run_suite, parse_snap, exp_silent
 
-LEAN_MODULES = ['GoSnaps.Props.C05']
+LEAN_MODULES = ['GoSnaps.Props.C05', 'GoSnaps.Props.C05Clean']
 EVIDENCE = dict(exhaustive=True,
                 rule='complete enumeration of CI{on,off} x Update{unset,true,false} x UPDATE_SNAPS{unset,true,clean,other} x 5 entry points x entry{missing,equal,different} and of the Clean cells (sort option x stale present x file sorted); each cell once in-process and once in a process started with the real environment; a cell is non-trivial when the real code produced an event or a write')
 
 UPDS = ['', 'true', 'clean', 'other']
+# spellings that must NOT count as `true` / `clean` (the "any other string" class)
+OTHER_SPELLINGS = ['TRUE', 'True', '1', 't', 'T', 'yes', 'on', 'false', '0', 'Clean', 'CLEAN', ' true', 'true ']
 KINDS = ['snap', 'json', 'yaml', 'sasnap', 'sajson']
 PRETTY = b'{\n "a": 1\n}'
 PRETTY2 = b'{\n "a": 2\n}'
@@ -20,12 +22,14 @@ def frame(tid, body):
     return b'\n[' + tid + b']\n' + body + b'\n---\n'
 
 
-def cell_world(tag, ci, updopt, upd, kind, state):
+def cell_world(tag, ci, updopt, upd, kind, state, stored_empty=False):
     w = World(tag)
     w.add(mode_line(ci, upd))
     w.add(cfg_line(1, 'snaps', 'f', None, updopt))
     name = b'TestCell'
     stored = {'snap': b'value one', 'json': PRETTY, 'yaml': b'a: 1\n', 'sasnap': b'value one', 'sajson': PRETTY}[kind]
+    if stored_empty:
+        stored = b''        # an existing snapshot holding the empty value is still an existing snapshot
     if state != 'missing':
         if kind in ('snap', 'json', 'yaml'):
             w.add('fsput %s %s' % (hx('snaps/f.snap'), hx(frame(name + b' - 1', stored))))
@@ -184,6 +188,20 @@ def run(ctx):
                 env['UPDATE_SNAPS'] = upd
             ws = all_cells((ci, upd))
             run_suite(ctx, 'modes.realenv[%s,%s]' % ('ci' if ci else 'noci', upd or 'unset'), ws, env=env, known=known, chunk=500)
+    # other spellings of the environment variable, and existing-but-empty standalone snapshots
+    ws = []
+    k = 0
+    for sp in OTHER_SPELLINGS:
+        for kind in KINDS:
+            for state in ('missing', 'different'):
+                k += 1
+                ws.append(cell_world('sp-%d' % k, False, 'none', sp, kind, state))
+        k += 1
+        ws.append(clean_world('spc-%d' % k, False, sp, '0', True, True))
+    for ci, updopt, upd in itertools.product([False, True], ['none', 'true', 'false'], UPDS):
+        k += 1
+        ws.append(cell_world('empty-%d' % k, ci, updopt, upd, 'sasnap', 'different', stored_empty=True))
+    run_suite(ctx, 'modes.spellings-and-empty', ws, known=known, chunk=500)
     if ctx.tier == 'thorough':
         # random UPDATE_SNAPS strings for the "any other string" class
         g = Gen(ctx.seed * 1000003 + 5)
